@@ -23,7 +23,7 @@ struct Obs {
     std::vector<LogEntry> log;          // functor calls in order; id of the value produced = index
     std::vector<int> consumed;          // times value id was handed to a rule functor
     const char* base = nullptr;         // start of the caller's buffer (lexeme offsets)
-    long steps = 0, step_limit = 20000;
+    long steps = 0, step_limit = 3000;
     void reset(const char* b) { log.clear(); consumed.clear(); base = b; steps = 0; }
 };
 extern Obs g_obs;
